@@ -56,10 +56,7 @@ func IDs() []string {
 var NotApplicable = map[string]string{
 	"C10": "Equality between reported counters/sizes and the repository state before/after prune is arithmetic over runtime index contents; beyond C09's orderings no clause of it is visible in the shape of the code, so static analysis cannot decide it.",
 	"C46": "'Returns exactly the requested byte range' is offset arithmetic over runtime blob sizes (cumulative sizes, binary search); the only structural part (shared blob-cache locking) is decided under C47.",
-	"C52": "Disjointness and coverage of the n/t pack buckets is a fact about integer arithmetic over runtime pack IDs; deciding it needs evaluation or a solver, which is a different technique family.",
 	"C53": "Which paths differ between two trees is a function of runtime tree contents; the diff walker has no ordering, ownership or table clause that is both necessary and statically checkable without matching source shape.",
-	"C54": "The restore-size sum with hard links counted once is arithmetic over runtime node values; no structural necessary condition beyond trivial wiring exists.",
-	"C57": "'Unique match or error' depends on the set of IDs listed at run time; the only code shape involved is a two-branch fragment whose check would be a frozen source match (a false alarm in waiting).",
 }
 
 var commonAssumptions = []string{
